@@ -18,3 +18,6 @@ pub struct Senders {
     pub events: EventStreamer,
     pub autoalloc: AutoAllocService,
 }
+
+#[cfg(feature = "verif")]
+pub mod verif;
